@@ -143,6 +143,10 @@ func c19RunConc(ctx *core.Ctx, in c19Input) {
 				lastStarted, lastProgress = n, time.Now()
 			}
 			if fc.nAfters() > handled {
+				if handled > 8*(len(script)+4) {
+					hung = true // timers re-armed over and over without the requests being made
+					return
+				}
 				a := fc.after(handled)
 				d := a.dl - fc.nowNs()
 				if d < 0 {
